@@ -56,9 +56,9 @@ def run(tier, seed, only=None):
         if layout == "abs_under_target":
             root = os.path.join(d, name, "target", "proj")
             files = {os.path.join("target", "proj", k): v for k, v in files.items()}
-            b, res, texts = PC.run_project(d, name, files, mode=mode, project=os.path.join(d, name, "target", "proj", "src"))
+            b, res, texts = PC.run_project(d, name, files, mode=mode, project=os.path.join(d, name, "target", "proj", "src"), expect_parse=False)
         else:
-            b, res, texts = PC.run_project(d, name, files, mode=mode)
+            b, res, texts = PC.run_project(d, name, files, mode=mode, expect_parse=False)
         wr = PC.observe_wrappers(b)
         return {"event": "Discovery", "case": "%s" % name, "layout": layout, "mode": mode, "status": res.status,
                 "files": abstract, "wrappers": wr}, pk
